@@ -123,12 +123,12 @@ type Sim struct {
 	trace []string
 	paths []map[string]string // per chain: voucher bank denom -> full path (harness knowledge)
 
-	M      []*ratelimit.Chain    // per chain reference model
-	supply []map[string]*big.Int // per chain: supply of every denom at the end of the last observed block
-	epoch0 []uint64
+	M         []*ratelimit.Chain    // per chain reference model
+	supply    []map[string]*big.Int // per chain: supply of every denom at the end of the last observed block
+	epoch0    []uint64
 	uncounted map[int]map[ratelimit.Key]int // paths that carried accepted traffic without a rate limit (aims the admin op)
-	evs    []any // model events of the transaction being observed (for the classification of a difference)
-	Mode   string
+	evs       []any                         // model events of the transaction being observed (for the classification of a difference)
+	Mode      string
 
 	curKind   string
 	pendingV2 *ftpd
@@ -247,17 +247,17 @@ func (s *Sim) pathOf(chain int, bank string) string {
 // sending
 
 type SendOpt struct {
-	Lane     *Lane
-	SrcSide  int
-	Sender   int
-	Denom    string // bank denom on the source
-	Amt      sdkmath.Int
-	Receiver string
-	Memo     string
-	Soon     bool
-	Hours    int    // 0 = never (v1 height far away) / a few hours (v2)
-	Encoding string // v2 payload encoding
-	ViaMsgTransfer bool // alias / v2 lanes: send with MsgTransfer (UseAliasing / client id) instead of MsgSendPacket
+	Lane           *Lane
+	SrcSide        int
+	Sender         int
+	Denom          string // bank denom on the source
+	Amt            sdkmath.Int
+	Receiver       string
+	Memo           string
+	Soon           bool
+	Hours          int    // 0 = never (v1 height far away) / a few hours (v2)
+	Encoding       string // v2 payload encoding
+	ViaMsgTransfer bool   // alias / v2 lanes: send with MsgTransfer (UseAliasing / client id) instead of MsgSendPacket
 }
 
 func (s *Sim) timeoutFor(l *Lane, srcSide int, soon bool, hours int) (clienttypes.Height, uint64) {
